@@ -194,6 +194,8 @@ type subDef struct {
 }
 
 type caseState struct {
+	topicTag atomic.Pointer[string]
+
 	e     *vlib.Env
 	c     cfg
 	fam   []*tdef
@@ -441,13 +443,20 @@ func (cs *caseState) scriptFailures() {
 // bus phase
 
 func (cs *caseState) topic(kind, name string) string {
-	if cs.c.TopicByName {
-		return cs.e.ID() + "/" + kind + "/" + name
+	// the configured topic function may depend on more than the name (e.g. a per-tenant topic computed from the value):
+	// cs.topicTag changes between sends of the same type, so the bus must ask the configuration every time
+	tag := ""
+	if t := cs.topicTag.Load(); t != nil && *t != "" {
+		tag = "/" + *t
 	}
-	return cs.e.ID() + "/" + kind
+	if cs.c.TopicByName {
+		return cs.e.ID() + "/" + kind + "/" + name + tag
+	}
+	return cs.e.ID() + "/" + kind + tag
 }
 
 func (cs *caseState) busPhase(res *vlib.Result) {
+	defer cs.topicTag.Store(nil) // the processors subscribe to the plain topics
 	c, e := &cs.c, cs.e
 	pub := &vlib.Pub{Name: e.ID()}
 	mar := c.marshaler(cs.newUUID)
@@ -511,6 +520,12 @@ func (cs *caseState) busPhase(res *vlib.Result) {
 			}
 			before := len(pub.Calls())
 			var serr error
+			if cs.e.R.Chance(0.5) {
+				tg := fmt.Sprintf("tenant%d", cs.e.R.Intn(3))
+				cs.topicTag.Store(&tg)
+			} else {
+				cs.topicTag.Store(nil)
+			}
 			if m.Stream == "cmd" {
 				if cs.e.R.Chance(0.3) {
 					serr = cbus.SendWithModifiedMessage(context.Background(), v, func(mm *message.Message) error {
